@@ -9,6 +9,7 @@ package moq
 //@ func moq.parseInterfaceName -> ifaceName, mockName
 //@   props C20
 //@   safety C19
+//@   functional moq.parseInterfaceName
 //@   ensures no-colon: !contains(namePair, ":") ==> ifaceName == namePair && mockName == namePair + "Mock"
 //@   ensures colon-iface: contains(namePair, ":") ==> ifaceName == namePair[:indexOf(namePair, ":")]
 //@   ensures colon-mock: contains(namePair, ":") ==> mockName == namePair[indexOf(namePair, ":")+1:]
@@ -18,3 +19,117 @@ package moq
 //@   requires m != nil && m.registry != nil
 //@   ensures explicit: m.cfg.PkgName != "" ==> r == m.cfg.PkgName
 //@   ensures default: m.cfg.PkgName == "" ==> r == m.registry.srcPkgName
+
+//@ define effectful(j) = evKind(j, "fs-read") || evKind(j, "fs-write") || evKind(j, "io-write") || evKind(j, "stdout") || evKind(j, "exit")
+//@ define errMsg(e) = uf("errMsg", String, e)
+
+//@ func moq.New -> m, err
+//@   props C17 C18
+//@   safety C19
+//@   effect fs-read
+//@   ensures{C17,C19} error-means-nil: err != nil ==> m == nil
+//@   ensures{C08,C10,C16} cfg-kept: err == nil ==> m != nil && m.cfg == cfg && m.registry != nil && m.registry.srcPkgTypes != nil
+//@   ensures{C17,C19} registry-error-returned: forallEv(i, evIs(i, "call:registry.New") && evRes(i, 1) != nil ==> err == evRes(i, 1))
+//@   ensures{C10} registry-from-cfg: forallEv(i, evIs(i, "call:registry.New") ==> evArg(i, 0) == cfg.SrcDir && evArg(i, 1) == cfg.PkgName && (err == nil ==> m.registry == evRes(i, 0)))
+
+//@ func moq.Mocker.format -> out, err
+//@   props C16
+//@   safety C19
+//@   requires m != nil
+//@   ensures goimports: m.cfg.Formatter == "goimports" ==> existsEv(i, evIs(i, "call:moq.goimports") && evArg(i, 0) == src && evRes(i, 0) == out && evRes(i, 1) == err) && forallEv(i, !evIs(i, "call:moq.gofmt"))
+//@   ensures noop: m.cfg.Formatter == "noop" ==> out == src && err == nil && forallEv(i, !evIs(i, "call:moq.gofmt") && !evIs(i, "call:moq.goimports"))
+//@   ensures default-gofmt: m.cfg.Formatter != "goimports" && m.cfg.Formatter != "noop" ==> existsEv(i, evIs(i, "call:moq.gofmt") && evArg(i, 0) == src && evRes(i, 0) == out && evRes(i, 1) == err) && forallEv(i, !evIs(i, "call:moq.goimports"))
+
+//@ -- content of a byte slice, as an abstract value (A-fmt: the formatters are functions of the content)
+//@ define bytesOf(s) = uf("bytes.content", Int, rawcells("byte", s), rawoff(s), len(s))
+
+//@ func moq.gofmt -> out, err
+//@   props C16
+//@   safety C19
+//@   ensures{C16,C17} failure: uf("format.Source.fails", Bool, bytesOf(src)) ==> err != nil && out == nil
+//@   ensures{C16,C17} failure-message: err != nil ==> hasPrefix(errMsg(err), "go/format: ")
+//@   ensures success: !uf("format.Source.fails", Bool, bytesOf(src)) ==> err == nil && bytesOf(out) == uf("format.Source", Int, bytesOf(src))
+
+//@ func moq.goimports -> out, err
+//@   props C16
+//@   safety C19
+//@   ensures{C16} options: forallEv(i, evIs(i, "golang.org/x/tools/imports.Process") ==> evArg(i, 1) == src && evArg(i, 3).Comments && evArg(i, 3).TabIndent && evArg(i, 3).TabWidth == 8 && evArg(i, 3).Fragment && !evArg(i, 3).FormatOnly && !evArg(i, 3).AllErrors)
+//@   ensures{C16} called-once: existsEv(i, evIs(i, "golang.org/x/tools/imports.Process")) && forallEv(i, j, evIs(i, "golang.org/x/tools/imports.Process") && evIs(j, "golang.org/x/tools/imports.Process") ==> i == j)
+//@   ensures{C16,C17} failure: forallEv(i, evIs(i, "golang.org/x/tools/imports.Process") && evRes(i, 1) != nil ==> err != nil && out == nil && hasPrefix(errMsg(err), "goimports: "))
+//@   ensures success: forallEv(i, evIs(i, "golang.org/x/tools/imports.Process") && evRes(i, 1) == nil ==> err == nil && out == evRes(i, 0))
+
+//@ define ifaceNameOf(np) = uf("moq.parseInterfaceName#0", String, np)
+//@ define mockNameOf(np) = uf("moq.parseInterfaceName#1", String, np)
+
+//@ func moq.Mocker.Mock -> err
+//@   props C17
+//@   safety C19
+//@   effect io-write
+//@   modifies H:registry.Package#, H:registry.Var#, H:registry.MethodScope#, M:, A:, H:bytes.Buffer#
+//@   requires m != nil && m.registry != nil && m.registry.srcPkgTypes != nil && w != nil
+//@   loop 1 invariant idx: rangeIndex >= -1
+//@   loop 1 invariant {C20} names-so-far: forall(k, 0 <= k && k <= rangeIndex ==> mocks[k].InterfaceName == ifaceNameOf(namePairs[k]) && mocks[k].MockName == mockNameOf(namePairs[k]))
+//@   loop 2 invariant jdx: j >= 0
+//@   ensures{C19} no-names: len(namePairs) == 0 ==> err != nil && errMsg(err) == "must specify one interface" && forallEv(i, !effectful(i))
+//@   ensures{C17,C18} writes-only-w: forallEv(i, evKind(i, "io-write") ==> (evIs(i, "io.Writer.Write") && evArg(i, 0) == w) || (evIs(i, "call:template.Template.Execute") && fresh(evArg(i, 1))))
+//@   ensures{C17} write-is-last: forallEv(i, j, evIs(i, "io.Writer.Write") && j > i ==> !effectful(j))
+//@   ensures{C17} write-once: forallEv(i, j, evIs(i, "io.Writer.Write") && evIs(j, "io.Writer.Write") ==> i == j)
+//@   ensures{C17} success-wrote: err == nil ==> existsEv(i, evIs(i, "io.Writer.Write") && evRes(i, 1) == nil)
+//@   ensures{C17} failure-wrote-nothing: err != nil ==> forallEv(i, evIs(i, "io.Writer.Write") ==> evRes(i, 1) == err)
+//@   ensures{C17} written-bytes-are-formatted: forallEv(i, evIs(i, "io.Writer.Write") ==> existsEv(j, j < i && evIs(j, "call:moq.Mocker.format") && evRes(j, 1) == nil && evArg(i, 1) == evRes(j, 0)))
+//@   ensures{C17} formatted-is-template-output: forallEv(j, evIs(j, "call:moq.Mocker.format") ==> existsEv(k, t, k < t && t < j && evIs(k, "call:template.Template.Execute") && evRes(k) == nil && evIs(t, "(*bytes.Buffer).Bytes") && evArg(t, 0) == evArg(k, 1) && evArg(j, 1) == evRes(t)))
+//@   ensures{C17,C19} lookup-error-returned: forallEv(i, evIs(i, "call:registry.Registry.LookupInterface") && evRes(i, 2) != nil ==> err == evRes(i, 2) && forallEv(j, j > i ==> !effectful(j)))
+//@   ensures{C17,C19} template-error-returned: forallEv(i, evIs(i, "call:template.Template.Execute") && evRes(i) != nil ==> err == evRes(i) && forallEv(j, j > i ==> !effectful(j)))
+//@   ensures{C17,C19} format-error-returned: forallEv(i, evIs(i, "call:moq.Mocker.format") && evRes(i, 1) != nil ==> err == evRes(i, 1) && forallEv(j, j > i ==> !effectful(j)))
+//@   ensures{C08} flags-to-template: forallEv(i, evIs(i, "call:template.Template.Execute") ==> evArg(i, 2).StubImpl == old(m.cfg.StubImpl) && evArg(i, 2).SkipEnsure == old(m.cfg.SkipEnsure) && evArg(i, 2).WithResets == old(m.cfg.WithResets))
+//@   ensures{C10} pkg-clause: forallEv(i, evIs(i, "call:template.Template.Execute") ==> evArg(i, 2).PkgName == ite(old(m.cfg.PkgName) != "", old(m.cfg.PkgName), old(m.registry.srcPkgName)))
+//@   ensures{C20} one-mock-per-argument: forallEv(i, evIs(i, "call:template.Template.Execute") ==> len(evArg(i, 2).Mocks) == len(namePairs))
+//@   ensures{C10} same-package-unqualified: forallEv(i, evIs(i, "call:template.Template.Execute") && old(m.registry.srcPkgName) == evArg(i, 2).PkgName ==> evArg(i, 2).SrcPkgQualifier == "" && forallEv(j, !(evIs(j, "call:registry.Registry.AddImport") && evArg(j, 1) == old(m.registry.srcPkgTypes) && isSrcImport(j))))
+//@   ensures{C10} other-package-skip-ensure: forallEv(i, evIs(i, "call:template.Template.Execute") && old(m.registry.srcPkgName) != evArg(i, 2).PkgName && old(m.cfg.SkipEnsure) ==> evArg(i, 2).SrcPkgQualifier == old(m.registry.srcPkgName) + ".")
+//@   ensures{C10} other-package-imports-source: forallEv(i, evIs(i, "call:template.Template.Execute") && old(m.registry.srcPkgName) != evArg(i, 2).PkgName && !old(m.cfg.SkipEnsure) ==> existsEv(j, q, j < q && q < i && evIs(j, "call:registry.Registry.AddImport") && evArg(j, 1) == old(m.registry.srcPkgTypes) && evIs(q, "call:registry.Package.Qualifier") && evArg(q, 0) == evRes(j) && evArg(i, 2).SrcPkgQualifier == evRes(q) + "."))
+//@   ensures{C11} imports-rendered-are-registry-imports: forallEv(i, evIs(i, "call:template.Template.Execute") ==> existsEv(j, j < i && evIs(j, "call:registry.Registry.Imports") && evArg(i, 2).Imports == evRes(j) && forallEv(q, q > j && q < i ==> !evIs(q, "call:registry.Registry.AddImport"))))
+//@   ensures{C11} sync-iff-some-method: forallEv(i, evIs(i, "call:template.Data.MocksSomeMethod") ==> (evRes(i) <==> existsEv(j, j > i && evIs(j, "go/types.NewPackage") && evArg(j, 0) == "sync" && evArg(j, 1) == "sync" && existsEv(q, q > j && evIs(q, "call:registry.Registry.AddImport") && evArg(q, 1) == evRes(j)))))
+//@ define isSrcImport(j) = true
+
+//@ func template.Template.Execute
+//@   trusted text/template executes the parsed moqTemplate on data and writes the result to w only (A-tmpl)
+//@   effect io-write
+
+//@ func moq.Mocker.methodData -> md
+//@   props C02
+//@   safety C19
+//@   modifies H:registry.Package#, M:string:*registry.Package#, H:registry.Var#, H:registry.MethodScope#, A:*registry.Var#, M:string:bool#, A:template.ParamData#
+//@   requires m != nil && m.registry != nil && f != nil && isType(f.Type(), *types.Signature)
+//@   loop 1 invariant idx: i >= 0
+//@   loop 1 invariant params-so-far: forall(k, 0 <= k && k < i ==> allocated(params[k].Var) && params[k].Var.vr == sigOf(f).Params().At(k))
+//@   loop 1 invariant variadic-so-far: forall(k, 0 <= k && k < i ==> (params[k].Variadic ==> sigOf(f).Variadic() && k == sigOf(f).Params().Len() - 1))
+//@   loop 2 invariant idx: i >= 0
+//@   loop 2 invariant results-so-far: forall(k, 0 <= k && k < i ==> allocated(results[k].Var) && results[k].Var.vr == sigOf(f).Results().At(k) && !results[k].Variadic)
+//@   loop 2 invariant params-kept: forall(k, 0 <= k && k < len(params) ==> allocated(params[k].Var) && params[k].Var.vr == sigOf(f).Params().At(k))
+//@   ensures name: md.Name == f.Name()
+//@   ensures one-param-per-signature-param: len(md.Params) == sigOf(f).Params().Len()
+//@   ensures one-result-per-signature-result: len(md.Returns) == sigOf(f).Results().Len()
+//@   ensures param-objects: forall(k, 0 <= k && k < len(md.Params) ==> md.Params[k].Var != nil && md.Params[k].Var.vr == sigOf(f).Params().At(k))
+//@   ensures result-objects: forall(k, 0 <= k && k < len(md.Returns) ==> md.Returns[k].Var != nil && md.Returns[k].Var.vr == sigOf(f).Results().At(k) && !md.Returns[k].Variadic)
+//@ define sigOf(f) = as(f.Type(), *types.Signature)
+
+//@ func moq.Mocker.typeParams -> tpd
+//@   props C09
+//@   safety C19
+//@   modifies H:registry.Package#, M:string:*registry.Package#, H:registry.Var#, H:registry.MethodScope#, A:*registry.Var#, M:string:bool#, A:template.TypeParamData#
+//@   requires m != nil && m.registry != nil
+//@   loop 1 invariant idx: i >= 0
+//@   loop 1 invariant so-far: forall(k, 0 <= k && k < i ==> allocated(tpd[k].Var) && tpd[k].Var.vr.Name() == tparams.At(k).Obj().Name() && tpd[k].Var.vr.Type() == tparams.At(k).Constraint())
+//@   ensures none: tparams == nil ==> len(tpd) == 0
+//@   ensures same-count: tparams != nil ==> len(tpd) == tparams.Len()
+//@   ensures same-order-names-constraints: tparams != nil ==> forall(k, 0 <= k && k < len(tpd) ==> tpd[k].Var != nil && tpd[k].Var.vr.Name() == tparams.At(k).Obj().Name() && tpd[k].Var.vr.Type() == tparams.At(k).Constraint())
+
+//@ func moq.explicitConstraintType -> t
+//@   props C09
+//@   safety C19
+//@   requires typeParam != nil && isType(typeParam.Type().Underlying(), *types.Interface)
+//@   loop 1 invariant idx: j >= 0
+//@   loop 1 invariant skipped-so-far: forall(k, 0 <= k && k < j ==> !isType(ifaceOf(typeParam).EmbeddedType(k), *types.Basic) && !isType(ifaceOf(typeParam).EmbeddedType(k), *types.Union))
+//@   ensures none: (forall(k, 0 <= k && k < ifaceOf(typeParam).NumEmbeddeds() ==> !isType(ifaceOf(typeParam).EmbeddedType(k), *types.Basic) && !isType(ifaceOf(typeParam).EmbeddedType(k), *types.Union))) ==> t == nil
+//@   ensures first-basic-or-union: t != nil ==> exists(k, 0 <= k && k < ifaceOf(typeParam).NumEmbeddeds() && ((isType(ifaceOf(typeParam).EmbeddedType(k), *types.Basic) && t == ifaceOf(typeParam).EmbeddedType(k)) || (isType(ifaceOf(typeParam).EmbeddedType(k), *types.Union) && t == as(ifaceOf(typeParam).EmbeddedType(k), *types.Union).Term(0).Type())))
+//@ define ifaceOf(tp) = as(tp.Type().Underlying(), *types.Interface)
